@@ -223,7 +223,7 @@ def model_compare(ctx, mode, cases, tag):
             if len(items) != len(obj["writes"]) or not all(_agree_write(o, it) for (_, _, o), it in zip(obj["writes"], items)):
                 bad.append((i, lines[i]))
     # the same model evaluated by the Coq kernel's vm on a sample (all cases in the thorough tier up to a cap)
-    n_vm = (6000 if mode == "read" else 1500) if ctx.thorough() else (600 if mode == "read" else 150)
+    n_vm = (6000 if mode == "read" else 1500) if ctx.thorough() else (400 if mode == "read" else 100)
     idxs = sorted(ctx.rng.sample(range(len(cases)), min(n_vm, len(cases))))
     sample = [coq_terms(cases[i][2]) + (cases[i][2],) for i in idxs]
     if mode == "read":
@@ -308,10 +308,16 @@ def run_bits(ctx, mode, prop):
     mods = gen_bits.build_plan(ctx.rng, thorough=ctx.thorough(), kinds_per_triple=(2 if mode == "read" else 1))
     ctx.extra["modules"] = len(mods)
     ctx.extra["accessors"] = sum(len(m.accessors) for m in mods)
+    n_viol = len(ctx.violations)
     gc, n_bad, failures = evaluate(ctx, mods, mode, "gen")
     all_cases += gc
-    ctx.obligation("spec: %d C++ observations of %d accessors in %d generated modules agree with the arithmetic reference"
-                   % (ctx.evaluations, ctx.extra["accessors"], len(mods)), n_bad == 0 and not failures)
+    ctx.extra["observations_contradicting_the_spec"] = n_bad
+    ctx.obligation("spec: %d C++ observations of %d accessors in %d generated modules agree with the arithmetic reference "
+                   "(%d contradict it, all of them listed known findings)" % (ctx.evaluations, ctx.extra["accessors"], len(mods), n_bad)
+                   if n_bad and len(ctx.violations) == n_viol else
+                   "spec: %d C++ observations of %d accessors in %d generated modules agree with the arithmetic reference"
+                   % (ctx.evaluations, ctx.extra["accessors"], len(mods)),
+                   len(ctx.violations) == n_viol and not failures)
     try:
         bad = model_compare(ctx, mode, all_cases, mode)
     except fw.CoqEvalError as ex:
